@@ -86,6 +86,7 @@ def run_program(tier, idx, prog=None, plan=None, seed=None):
         def dec_kw(sx): return {n: dec_v(v) for n, v in eval(sx).items()}
         if plan is not None: ncalls = len(plan)
         npo_names = set(sk.pnames(prog, min(prog.get('nposonly', 0), prog['npos'])))
+        if npo_names and prog['kind'] not in ('func', 'partial', 'wrapped'): npo_names.add('self')      # `def m(self, x, /)`: self is positional-only too
         for ci in range(ncalls):
             nviol0 = len(viol)
             if plan is not None:
